@@ -35,7 +35,8 @@ def generate(seed, stratum, tier):
           'p_init': 0.6, 'p_react': 0.5, 'decline_bias': 0.05, 'nsignals': rng.randrange(2, 5)}
   else:
     kw = {}
-  return cc.gen_chart_scenario(rng, spec_kw=kw)
+  # is_in/child_state queries between steps must not change what the next event does
+  return cc.gen_chart_scenario(rng, spec_kw=kw, ops=('ev', 'is_in', 'child'), weights=(8, 1, 1))
 
 
 shrink_candidates = cc.shrink_chart
